@@ -825,9 +825,15 @@ class CodeGen:
                     # possibility of integer overflow in get_array_size
                     # messing up the check.  Bit-packed bool arrays need
                     # it too: lengths -7..-1 round to a size of 0 bytes.
+                    max_length = self.max_length(expr.type.el_type)
+                    if expr.type.el_type == DataType.BOOL:
+                        # get_array_size adds 7 before shifting, which
+                        # must not overflow either (a constant length
+                        # is sized at compile time and would not).
+                        max_length -= 7
                     safe_length = self.add_label('safe_length')
                     yield asm.Jump(safe_length)
-                    yield asm.Hleu(length, asm.IntLiteral(self.max_length(expr.type.el_type)))
+                    yield asm.Hleu(length, asm.IntLiteral(max_length))
                     yield from self.goto(stdlib.stack_overflow)
                     yield asm.Label(safe_length)
                 origin_bubble = self.reserve_word()
